@@ -56,6 +56,7 @@ def by_hand(ekf, defn, X):
     st, cov = ekf.State(), ekf.Covariance()
     out = []
     conds = []
+    by_hand.trajectory = []
     for i in range(X.shape[0]):
         row = list(X[i])
         ct = ekf.Control(**{c: row[j] for j, c in enumerate(ctrl)})
@@ -72,7 +73,11 @@ def by_hand(ekf, defn, X):
             r.append(float((y.T @ np.linalg.solve(S, y)).item()))
             conds.append(float(np.linalg.cond(S)))
         out.append(r)
+        by_hand.trajectory.append((monitors.vec_dict(st), np.array(cov.data, dtype=float)))
     return np.array(out), max(conds) if conds else 1.0
+
+
+by_hand.trajectory = []
 
 
 def params_snapshot(ad):
@@ -165,6 +170,28 @@ def run_unit(unit, ctx):
         R.stats.inc("list_input_checks")
         if T3.shape != T.shape or not np.array_equal(T3, T):
             R.add([K.V("transform:list-input-differs", "transform(list of rows) differs from transform(ndarray)", **w)])
+        # the same call asked to return the estimates as well: same NIS values, and the estimate after
+        # each row is the by-hand one
+        traj = list(by_hand.trajectory)
+        tup = ad.transform(X.copy(), include_states=True)
+        R.stats.inc("include_states_checks")
+        if not (isinstance(tup, tuple) and len(tup) == 3):
+            R.add([K.V("transform:include-states-shape", f"transform(include_states=True) returned {type(tup).__name__}", **w)])
+        else:
+            Ti, sts, covs = tup
+            if not np.array_equal(np.asarray(Ti, dtype=float), T):
+                R.add([K.V("transform:include-states-differs", "NIS values differ between transform(X) and transform(X, include_states=True)", **w)])
+            if len(sts) != len(traj) + 1 or len(covs) != len(traj) + 1:
+                R.add([K.V("transform:include-states-shape", f"{len(sts)} states / {len(covs)} covariances for {len(traj)} rows (expected rows + 1)", **w)])
+            else:
+                lay = monitors.names_of(sts[0])
+                for ri, (xs, Pm) in enumerate(traj):
+                    got_x = monitors.vec_dict(sts[ri + 1])
+                    got_P = np.array(covs[ri + 1].data, dtype=float)
+                    sc = max(1.0, float(np.max(np.abs(Pm), initial=0.0)), max((abs(v) for v in xs.values()), default=0.0))
+                    if any(not abs(got_x[n] - xs[n]) <= tol * sc for n in xs) or not np.all(np.abs(got_P - Pm) <= tol * sc):
+                        R.add([K.V("transform:include-states-estimate", f"estimate after row {ri} returned by transform(include_states=True) is not the by-hand one", row=ri, **w)])
+                        break
         if width == 1:
             T4 = np.asarray(ad.transform(X.reshape(-1).copy()), dtype=float)
             R.stats.inc("one_dimensional_input_checks")
